@@ -224,6 +224,12 @@ def rule_r3(ctx) -> List[R.Inst]:
     # the slot cursor is initialised once per source time: all volume groups of that time share the target's notes
     inits = [n for n in ast.walk(fn.node) if isinstance(n, ast.Assign) and isinstance(n.targets[0], ast.Name) and
              n.targets[0].id == "slot" and isinstance(n.value, ast.Constant) and n.value.value == 0]
+    if not inits:
+        # iterator form of the cursor: slots = iter(<the target's notes at this time>), consumed with next(slots, None)
+        its = [n for n in ast.walk(fn.node) if isinstance(n, ast.Assign) and isinstance(n.targets[0], ast.Name) and
+               isinstance(n.value, ast.Call) and isinstance(n.value.func, ast.Name) and n.value.func.id == "iter"]
+        inits = [n for n in its if any(isinstance(x, ast.Call) and isinstance(x.func, ast.Name) and x.func.id == "next" and x.args and
+                                       isinstance(x.args[0], ast.Name) and x.args[0].id == n.targets[0].id for x in ast.walk(fn.node))]
     if outer is not None and len(inits) == 1:
         direct = any(st is inits[0] for st in outer.body)
         if direct:
